@@ -19,6 +19,7 @@ import (
 	"verif/props/c06"
 	"verif/props/c07"
 	"verif/props/c08"
+	"verif/props/c09"
 	"verif/props/c10"
 	"verif/props/c11"
 	"verif/props/c12"
@@ -46,6 +47,7 @@ var props = map[string]prop{
 	"C06": {"model_checking", c06.Run, c06.Replay},
 	"C07": {"fault_enumeration", c07.Run, c07.Replay},
 	"C08": {"exploration", c08.Run, c08.Replay},
+	"C09": {"exploration", c09.Run, c09.Replay},
 	"C10": {"exploration", c10.Run, c10.Replay},
 	"C11": {"exploration", c11.Run, c11.Replay},
 	"C12": {"exploration", c12.Run, c12.Replay},
